@@ -59,6 +59,22 @@ func driveProto(rc *RunCtx) {
 	if rc.Failed() {
 		return
 	}
+	if sc.Str("ids", "") == "congruent" {
+		// an inadmissible id set may be refused by every party at Start; the property only speaks about
+		// key generations that complete
+		refused := 0
+		for _, n := range w.Nodes {
+			if n.StartErr != nil {
+				refused++
+			}
+		}
+		if refused == len(w.Nodes) {
+			rc.Res.Probes["inadmissible_ids_refused_at_start"]++
+			rc.Res.Nontrivial = true
+			rc.Res.Sample = map[string]interface{}{"proto": pr.Proto, "ids": "congruent", "outcome": "refused at Start by every party"}
+			return
+		}
+	}
 	if !drained && !lossy(&sc.Sched) {
 		rc.Fail("step-cap", "run did not drain within the step cap (%d steps)", w.StepNo)
 		return
@@ -224,6 +240,9 @@ func genC03(tier string, seed uint64, run int) *Scenario {
 		n, t = nt(r, 5)
 	}
 	p["n"], p["t"] = n, t
+	if run%8 == 5 {
+		p["ids"] = "congruent" // two ids equal modulo q: must be refused, or still yield a sound sharing
+	}
 	sc := &Scenario{Check: "C03", Kind: "proto", Seed: seed, Run: run, P: p}
 	sc.Sched = GenSched(r, n, true, false)
 	return sc
@@ -334,6 +353,17 @@ func genC08(tier string, seed uint64, run int) *Scenario {
 		if sc.Sched.MaxFaults < 10 {
 			sc.Sched.MaxFaults = 10
 		}
+	}
+	if run%5 == 4 {
+		// channel-discipline probe on one message type of this protocol (cycling through all of them;
+		// every ECDSA run of this check is such a probe)
+		rows := Models[modelName(proto)].Rows
+		k := run / 10
+		if strings.HasPrefix(proto, "ec-") {
+			k = run / 30
+		}
+		sc.Sched.HoldType = rows[(k+int(seed%7))%len(rows)].Type
+		sc.Sched.PreStart = false
 	}
 	return sc
 }
